@@ -217,11 +217,65 @@ def check(chk, facts):
     relops(chk, facts)
 
 
+def tpe_in(chk, facts, rule="C14.TABLE.in"):
+    """TPE `in` on two concrete operands: reflexive whatever is known about the hierarchy. The `uid1 == uid2` test (single entity)
+    and the `uids.contains(uid1)` test (entity set) answer true and are not conditional on the ancestors of uid1 being known."""
+    from lib import panics
+    f = get_fn(chk, facts, rule, "cedar_policy_core::tpe::evaluator::Evaluator::interpret")
+    r = facts.adts.get(BOP)
+    if f is None or r is None:
+        return
+    sws = sorted(shape.variant_switches(f, "ast::ops::BinaryOp"), key=lambda s_: -len(s_[2]))
+    if not sws:
+        chk.lost(rule, "match on BinaryOp in tpe interpret")
+        return
+    b, scrut, arms, other = sws[0]
+    vi = [i for i, v in enumerate(r["variants"]) if v["name"] == "In"][0]
+    if vi not in arms:
+        chk.lost(rule, "In arm of tpe interpret")
+        return
+    region = own_region(f, "ast::ops::BinaryOp", b, arms, vi)
+
+    def anc_guarded(bb):
+        out = []
+        for d, taken in cfg.guard_edges(f, bb):
+            if d in region:
+                desc = panics.cond_desc(f, d)
+                if "get_ancestors" in desc:
+                    out.append(desc)
+        return out
+    tests = {"single": [], "set": []}
+    for bb in sorted(region):
+        t = f.blocks[bb]["t"]
+        if t[0] != "call":
+            continue
+        c = callee(t)
+        tys = [f.locals[o[1][0]] if o[0] in ("c", "m") else "" for o in t[2][:2]]
+        if c.endswith("::eq") and "PartialEq" in c and all("EntityUID" in ty for ty in tys):
+            tests["single"].append((bb, t))
+        if c.split("::")[-1] == "contains" and len(tys) == 2 and "EntityUID" in tys[1] and "EntityUID" in tys[0]:
+            # membership of uid1 itself in the right-hand set (not the ancestor lookup)
+            prod = panics.producer(f, t[2][0])
+            if "get_as_entity_set" in prod or "entity_set" in prod:
+                tests["set"].append((bb, t))
+    for kind, ts in tests.items():
+        probs = []
+        if not ts:
+            probs.append("no reflexivity test (%s right-hand side)" % kind)
+        for bb, t in ts:
+            g = anc_guarded(bb)
+            if g:
+                probs.append("the reflexivity test at L%s is only made under %s" % (t[1].get("l"), g))
+        chk.ob(rule, "reflexive:" + kind, not probs, "`e in e` (%s right-hand side) is true whether or not the ancestors of e are known: %s" % (kind, "; ".join(probs) if probs else "tested unconditionally"),
+               where=f.where(ts[0][1][1].get("l") if ts else None), fn=f.name, key="%s:reflexive:%s" % (rule, kind))
+
+
 def check_tpe(chk, facts, rule="C14.TABLE.binop"):
     """The TPE evaluator's own dispatch on two concrete operands: same primitives, same operand positions
     (`in` and the tag operators are evaluated against partial entities and have no shared primitive: not examined here)."""
     binops(chk, facts, rule=rule, fname="cedar_policy_core::tpe::evaluator::Evaluator::interpret", names=("v1", "v2"),
            only=("Eq", "Less", "LessEq", "Add", "Sub", "Mul", "Contains", "ContainsAll", "ContainsAny"), floor=9, check_total=False)
+    tpe_in(chk, facts)
 
 
 # ---------------------------------------------------------------------------------------------
